@@ -14,3 +14,13 @@ def run(rep, tier, seed):
         rep.assume("bounded part (open prefixes vs completions) not built yet")
         return
     bounded_C06.run(rep, tier, seed)
+
+
+def replay(path):
+    import json
+    d = json.load(open(path))
+    if d.get("module", "").startswith("checks.bounded_") or "case" in d:
+        from checks import bounded_C06
+        return bounded_C06.replay(path)
+    from vlib.harness import replay_file
+    return replay_file(path)
